@@ -135,6 +135,20 @@ func runC14(in J) interface{} {
 		}
 		doc, _ := in["doc"].(map[string]interface{})
 		err = r.Resolve(c, doc)
+	case "totype":
+		// ToType: the library's own JSON resolver with one callback per type; "invoked" is the position of the returned
+		// value's type in the list given as cbs (all type names)
+		doc, _ := in["doc"].(map[string]interface{})
+		obs["ctorErr"] = false
+		var t vocab.Type
+		t, err = streams.ToType(c, doc)
+		if err == nil && t != nil {
+			for idx, n := range strs(in["cbs"]) {
+				if n == t.GetTypeName() {
+					log = append(log, idx)
+				}
+			}
+		}
 	case "pred":
 		d, cerr := streams.NewTypeResolver(cbs...)
 		if cerr != nil {
@@ -260,6 +274,21 @@ func genC14(r *rng, thorough bool, args []string, yield func(in J)) {
 				if s, ok := ty.(string); ok && r.bool() {
 					ty = "as:" + s
 				}
+			}
+			// a `type` that is neither a string nor an array of strings names no type at all
+			if r.chance(12) {
+				ty = []interface{}{42.0, true, nil, J{"name": v}, []interface{}{}, []interface{}{7.0, false}, []interface{}{nil, J{}}, 0.0, ""}[r.intn(9)]
+			}
+			if r.chance(30) {
+				// ToType is a JSON resolver with a callback for every type
+				all := make([]string, len(names))
+				copy(all, names)
+				nils := make([]string, len(names))
+				for q := range nils {
+					nils[q] = "nil"
+				}
+				yield(J{"resolver": "totype", "doc": J{"@context": ctx, "type": ty, "id": "https://x.example/o/3"}, "cbs": all, "ret": nils})
+				break
 			}
 			yield(J{"resolver": "json", "doc": J{"@context": ctx, "type": ty, "id": "https://x.example/o/2"}, "cbs": cbs, "ret": rets})
 		case 2:
